@@ -303,7 +303,7 @@ impl Prop for C11 {
         }
     }
     fn worker(&self, ctx: &mut WorkerCtx) {
-        let total = if ctx.quick { 16_000 } else { 300_000 };
+        let total = if ctx.quick { 60_000 } else { 1_000_000 };
         let n = ctx.share(total);
         ctx.drive(1, n, 300, &gen_case, &check, &reduce);
     }
